@@ -86,14 +86,17 @@ Matches(g, path) ==
   IN {m.b : m \in MatchFrom(g, path, 2, S0)}
 
 \* ---------------------------------------------------------------- clauses
-\* OPTIONAL MATCH (q.optfrom)-[..]-(..): q.opt is an edge pattern / node pattern sequence continuing from a variable
-\* of the main path.  Every binding of the main pattern that passes WHERE (which mentions main variables only) is
-\* extended by all matches of the optional part, or once with its variables unbound when there is none.
+\* MATCH main WHERE q.where OPTIONAL MATCH (q.optfrom)-[..]-(..) WHERE q.owhere:  q.opt is an edge pattern / node
+\* pattern sequence continuing from a variable of the main path.  q.where filters the bindings of the main pattern.
+\* q.owhere (over main and optional variables) is part of the optional match: it decides which optional matches
+\* count and never removes a main binding.  Every passing main binding is extended by all optional matches that
+\* satisfy q.owhere, or once with the optional variables unbound when there is none.
 HasOpt(q) == "opt" \in DOMAIN q
 NoB == [k |-> "null", id |-> 0]
 OptExt(g, q, b) ==
   LET full == <<[var |-> q.optfrom, labels |-> <<>>]>> \o q.opt
-      E == {m.b : m \in MatchFrom(g, full, 2, {[b |-> b, cur |-> b[q.optfrom].id]})}
+      E0 == {m.b : m \in MatchFrom(g, full, 2, {[b |-> b, cur |-> b[q.optfrom].id]})}
+      E == IF "owhere" \in DOMAIN q THEN {x \in E0 : IsTrue(Eval(g, x, q.owhere))} ELSE E0
       vars == {q.opt[i].var : i \in DOMAIN q.opt}
   IN IF E = {} THEN {[x \in DOMAIN b \cup vars |-> IF x \in DOMAIN b THEN b[x] ELSE NoB]} ELSE E
 Passing(g, q) == LET P0 == {b \in Matches(g, q.path) : IsTrue(Eval(g, b, q.where))} IN
